@@ -1,6 +1,10 @@
 (* C01/C02 — proofs about the manifest codec (Manifest.v) and the option tables of Encrypt
    (Model.v [encrypt_manifest] against Spec.v [spec_manifest]):
-     json_unquote_escape, manifest_json_no_nl, parse_manifest_json, manifest_json_nonempty,
+     json_unquote_escape(_min,_u), json_unquote_string_sty, manifest_json_no_nl,
+     manifest_json_nonempty, parse_manifest_text(_gen) (the parser inverts every
+     README-conformant serialisation [manifest_text]: any member order, whitespace, escape
+     style), manifest_text_no_nl, manifest_text_nonempty, manifest_text_go,
+     parse_manifest_json (= the instance for Go's own text),
      alias_table, alias_wrap_args, keyname_table, encrypt_manifest_spec_h.
    Stdlib style.  No axioms. *)
 From Kit Require Import C01.Sem Lib.ReaderFacts.
@@ -104,6 +108,95 @@ Example json_unquote_escape_ex :
   = Some ([34; 1; 60; 200; 92; 10; 65]%N, [7%N]).
 Proof. vm_compute. reflexivity. Qed.
 
+(* the two other escape styles of [json_string_sty]: minimal escapes with "\/" (style 1) and
+   "\u00XX" for every byte below 0x80 (style 2).  No hypothesis on the bytes. *)
+Lemma json_unquote_escape_min_byte b t acc :
+  json_unquote (json_escape_min b ++ t) acc = json_unquote t (b :: acc).
+Proof.
+  unfold json_escape_min.
+  destruct (b =? 34)%N eqn:E34. { apply N.eqb_eq in E34; subst b. reflexivity. }
+  destruct (b =? 92)%N eqn:E92. { apply N.eqb_eq in E92; subst b. reflexivity. }
+  destruct (b =? 47)%N eqn:E47. { apply N.eqb_eq in E47; subst b. reflexivity. }
+  destruct (b <? 32)%N eqn:Eu.
+  - assert (Hb : (b < 32)%N) by lia.
+    cbn [app].
+    rewrite (json_unquote_u _ _ (b / 16)%N (b mod 16)%N);
+      [ | apply hex_val_digit; lia | apply hex_val_digit; lia | lia ].
+    f_equal. f_equal. lia.
+  - cbn [app json_unquote]. rewrite E34, E92, Eu. reflexivity.
+Qed.
+
+Lemma json_unquote_escape_u_byte b t acc :
+  json_unquote (json_escape_u b ++ t) acc = json_unquote t (b :: acc).
+Proof.
+  unfold json_escape_u.
+  destruct (b <? 128)%N eqn:Eu.
+  - assert (Hb : (b < 128)%N) by lia.
+    cbn [app].
+    rewrite (json_unquote_u _ _ (b / 16)%N (b mod 16)%N);
+      [ | apply hex_val_digit; lia | apply hex_val_digit; lia | lia ].
+    f_equal. f_equal. lia.
+  - cbn [app json_unquote].
+    replace (b =? 34)%N with false by lia.
+    replace (b <? 32)%N with false by lia.
+    replace (b =? 92)%N with false by lia. reflexivity.
+Qed.
+
+Lemma json_unquote_escape_min s : forall rest acc,
+  json_unquote (flat_map json_escape_min s ++ [34%N] ++ rest) acc = Some (rev acc ++ s, rest).
+Proof.
+  induction s as [|b s IH]; intros rest acc.
+  - cbn [flat_map app json_unquote]. rewrite app_nil_r. reflexivity.
+  - cbn [flat_map]. rewrite <- app_assoc, json_unquote_escape_min_byte, IH.
+    cbn [rev]. rewrite <- app_assoc. reflexivity.
+Qed.
+
+Lemma json_unquote_escape_u s : forall rest acc,
+  json_unquote (flat_map json_escape_u s ++ [34%N] ++ rest) acc = Some (rev acc ++ s, rest).
+Proof.
+  induction s as [|b s IH]; intros rest acc.
+  - cbn [flat_map app json_unquote]. rewrite app_nil_r. reflexivity.
+  - cbn [flat_map]. rewrite <- app_assoc, json_unquote_escape_u_byte, IH.
+    cbn [rev]. rewrite <- app_assoc. reflexivity.
+Qed.
+
+(* the escape function selected by [ms_esc] *)
+Definition esc_fun (esc : nat) : N -> list N :=
+  match esc with
+  | O => json_escape_byte
+  | Datatypes.S O => json_escape_min
+  | _ => json_escape_u
+  end.
+
+Lemma json_string_sty_eq esc s :
+  json_string_sty esc s = [34%N] ++ flat_map (esc_fun esc) s ++ [34%N].
+Proof. reflexivity. Qed.
+
+Lemma json_unquote_esc_fun esc s rest acc :
+  json_unquote (flat_map (esc_fun esc) s ++ [34%N] ++ rest) acc = Some (rev acc ++ s, rest).
+Proof.
+  destruct esc as [|[|esc]]; cbn [esc_fun].
+  - apply json_unquote_escape.
+  - apply json_unquote_escape_min.
+  - apply json_unquote_escape_u.
+Qed.
+
+(* the body of a string written in any of the three styles decodes to the string *)
+Lemma json_unquote_string_sty esc s rest :
+  json_unquote (tl (json_string_sty esc s) ++ rest) [] = Some (s, rest).
+Proof.
+  rewrite json_string_sty_eq. cbn [app tl]. rewrite <- app_assoc.
+  apply (json_unquote_esc_fun esc s rest []).
+Qed.
+
+Example json_unquote_string_sty_ex :
+  let s := [34; 1; 60; 47; 200; 92; 10; 65; 127; 128]%N in
+  json_string_sty 1 s = str """\""\u0001<\/" ++ [200%N] ++ str "\\\u000aA" ++ [127; 128]%N ++ str """"
+  /\ json_string_sty 2 [47; 200]%N = str """\u002f" ++ [200%N] ++ str """"
+  /\ json_unquote (tl (json_string_sty 1 s) ++ [7%N]) [] = Some (s, [7%N])
+  /\ json_unquote (tl (json_string_sty 2 s) ++ [7%N]) [] = Some (s, [7%N]).
+Proof. vm_compute. repeat split. Qed.
+
 (* a string of plain characters passes through the decoder unchanged *)
 Lemma json_unquote_plain s : forall rest acc,
   Forall plain_char s ->
@@ -118,6 +211,10 @@ Proof.
     replace (c =? 92)%N with false by lia.
     rewrite (IH rest (c :: acc) Hs'). cbn [rev]. rewrite <- app_assoc. reflexivity.
 Qed.
+
+Lemma json_unquote_plain_cons s rest acc :
+  Forall plain_char s -> json_unquote (s ++ 34%N :: rest) acc = Some (rev acc ++ s, rest).
+Proof. exact (json_unquote_plain s rest acc). Qed.
 
 (* ------------------------------------------------------------------------------------- *)
 (* B5: no line feed in an encoded manifest                                                 *)
@@ -147,6 +244,110 @@ Proof.
 Qed.
 
 Ltac no_nl_lit := eval_str; unfold no_nl; repeat (constructor; try discriminate).
+
+(* the other two escape styles and insignificant whitespace have no line feed either *)
+Lemma json_escape_min_no_nl b : no_nl (json_escape_min b).
+Proof.
+  unfold json_escape_min, no_nl.
+  repeat match goal with
+         | |- Forall _ (if ?c then _ else _) => destruct c eqn:?
+         end;
+    repeat (constructor; try discriminate).
+  - pose proof (hex_digit_ge (b / 16)). lia.
+  - pose proof (hex_digit_ge (b mod 16)). lia.
+  - lia.
+Qed.
+
+Lemma json_escape_u_no_nl b : no_nl (json_escape_u b).
+Proof.
+  unfold json_escape_u, no_nl.
+  repeat match goal with
+         | |- Forall _ (if ?c then _ else _) => destruct c eqn:?
+         end;
+    repeat (constructor; try discriminate).
+  - pose proof (hex_digit_ge (b / 16)). lia.
+  - pose proof (hex_digit_ge (b mod 16)). lia.
+  - lia.
+Qed.
+
+Lemma json_string_sty_no_nl esc s : no_nl (json_string_sty esc s).
+Proof.
+  rewrite json_string_sty_eq.
+  apply no_nl_app; [repeat constructor; discriminate|].
+  apply no_nl_app; [|repeat constructor; discriminate].
+  induction s as [|b s IH]; cbn [flat_map]; [constructor|].
+  apply no_nl_app; [|exact IH].
+  destruct esc as [|[|esc]]; cbn [esc_fun].
+  - apply json_escape_byte_no_nl.
+  - apply json_escape_min_no_nl.
+  - apply json_escape_u_no_nl.
+Qed.
+
+Definition all_ws (w : list N) : Prop := Forall (fun b => is_ws b = true) w.
+
+Lemma all_ws_no_nl w : all_ws w -> no_nl w.
+Proof.
+  intros Hw. unfold no_nl. eapply Forall_impl; [|exact Hw].
+  intros b Hb ->. discriminate Hb.
+Qed.
+
+Lemma skip_ws_app w x : all_ws w -> skip_ws (w ++ x) = skip_ws x.
+Proof.
+  intros Hw. induction Hw as [|b w Hb Hw IH]; [reflexivity|].
+  cbn [app skip_ws]. rewrite Hb. exact IH.
+Qed.
+
+Lemma skip_ws_cons b r : is_ws b = false -> skip_ws (b :: r) = b :: r.
+Proof. intros Hb. cbn [skip_ws]. rewrite Hb. reflexivity. Qed.
+
+Lemma skip_ws_all w : all_ws w -> skip_ws w = [].
+Proof. intros Hw. rewrite <- (app_nil_r w). rewrite skip_ws_app by exact Hw. reflexivity. Qed.
+
+(* evaluate every comparison of two closed byte strings *)
+Ltac eval_eqb :=
+  repeat match goal with
+         | |- context [eqb_listN ?a ?b] =>
+             let v := eval vm_compute in (eqb_listN a b) in change (eqb_listN a b) with v
+         end.
+
+(* the member names, and what one member does to the parser's accumulator *)
+Definition fname (f : mfield) : list N :=
+  match f with
+  | FK => str "k" | FKw => str "kw" | FWfk => str "wfk" | FCph => str "cph" | FNp => str "np"
+  end.
+
+Definition pm_upd (m : manifest) (st : pman) (f : mfield) : pman :=
+  match f with
+  | FK => mkPman (m_k m) (pm_kw st) (pm_wfk st) (pm_cph st) (pm_np st)
+  | FKw => mkPman (pm_k st) (Some (m_kw m)) (pm_wfk st) (pm_cph st) (pm_np st)
+  | FWfk => mkPman (pm_k st) (pm_kw st) (Some (m_wfk m)) (pm_cph st) (pm_np st)
+  | FCph => mkPman (pm_k st) (pm_kw st) (pm_wfk st) (Some (m_cph m)) (pm_np st)
+  | FNp => mkPman (pm_k st) (pm_kw st) (pm_wfk st) (pm_cph st) (Some (m_np m))
+  end.
+
+Lemma fname_plain f : Forall plain_char (fname f).
+Proof. destruct f; unfold fname, plain_char; eval_str; repeat (constructor; try lia). Qed.
+
+(* a property of the accumulator that every member keeps and member [f0] establishes holds
+   after any member list that contains [f0] *)
+Lemma fold_upd_stable m (P : pman -> Prop) :
+  (forall st f, P st -> P (pm_upd m st f)) ->
+  forall fs st, P st -> P (fold_left (pm_upd m) fs st).
+Proof.
+  intros Hstab fs. induction fs as [|f fs IH]; intros st Hst; cbn [fold_left]; [exact Hst|].
+  apply IH, Hstab, Hst.
+Qed.
+
+Lemma fold_upd_inv m (P : pman -> Prop) f0 :
+  (forall st f, P st -> P (pm_upd m st f)) ->
+  (forall st, P (pm_upd m st f0)) ->
+  forall fs st, In f0 fs -> P (fold_left (pm_upd m) fs st).
+Proof.
+  intros Hstab Hest fs. induction fs as [|f fs IH]; intros st Hin; [destruct Hin|].
+  cbn [fold_left]. destruct Hin as [->|Hin].
+  - apply fold_upd_stable; [exact Hstab|apply Hest].
+  - apply IH, Hin.
+Qed.
 
 Section ManifestProofs.
   Variable C : crypto.
@@ -193,54 +394,259 @@ Section ManifestProofs.
     cbn [opt_bind rev app]. rewrite (ok_b64_roundtrip C Hok bs Hbs). reflexivity.
   Qed.
 
-  (* the optional "k" member; when it is absent the text goes on with "kw": whose third
-     character 'w' differs from the '"' of "k":" *)
-  Lemma parse_k_member k rest :
-    match strip_prefix (str """k"":""")
-            ((if is_nil k then [] else str """k"":" ++ json_string k ++ str ",")
-             ++ str """kw"":" ++ rest) with
-    | Some r => opt_bind (json_unquote r []) (fun '(k, r') =>
-                opt_bind (strip_prefix (str ",") r') (fun r'' => Some (k, r'')))
-    | None => Some ([], (if is_nil k then [] else str """k"":" ++ json_string k ++ str ",")
-                        ++ str """kw"":" ++ rest)
-    end = Some (k, str """kw"":" ++ rest).
+  (* the text of the value of member [f] *)
+  Definition fvalue (sty : mstyle) (m : manifest) (f : mfield) : list N :=
+    match f with
+    | FK => json_string_sty (ms_esc sty) (m_k m)
+    | FKw => [digit_char (kwalg_id (m_kw m))]
+    | FWfk => [34%N] ++ b64e C (m_wfk m) ++ [34%N]
+    | FCph => [digit_char (cipher_id (m_cph m))]
+    | FNp => [34%N] ++ b64e C (m_np m) ++ [34%N]
+    end.
+
+  Lemma render_member_eq sty m f :
+    render_member C sty m f
+    = [34%N] ++ fname f ++ [34%N] ++ ms_ws sty ++ [58%N] ++ ms_ws sty ++ fvalue sty m f.
+  Proof. destruct f; reflexivity. Qed.
+
+  Lemma render_members_cons2 sty m f g t :
+    render_members C sty m (f :: g :: t)
+    = render_member C sty m f ++ ms_ws sty ++ [44%N] ++ ms_ws sty
+      ++ render_members C sty m (g :: t).
+  Proof. reflexivity. Qed.
+
+  Lemma render_member_length sty m f : 1 <= List.length (render_member C sty m f).
+  Proof. rewrite render_member_eq. cbn [app List.length]. lia. Qed.
+
+  Lemma render_members_length sty m fs :
+    List.length fs <= List.length (render_members C sty m fs).
   Proof.
-    destruct k as [|k0 kt]; cbn [is_nil].
-    - eval_str. cbn [app strip_prefix]. reflexivity.
-    - unfold json_string.
-      change (str """k"":""") with (str """k"":" ++ [34%N]).
-      rewrite <- !app_assoc.
-      change (str """k"":" ++ [34%N] ++ flat_map json_escape_byte (k0 :: kt) ++ [34%N]
-                ++ str "," ++ str """kw"":" ++ rest)
-        with ((str """k"":" ++ [34%N]) ++ flat_map json_escape_byte (k0 :: kt) ++ [34%N]
-                ++ str "," ++ str """kw"":" ++ rest).
-      rewrite strip_prefix_app.
-      rewrite (json_unquote_escape (k0 :: kt) (str "," ++ str """kw"":" ++ rest) []).
-      cbn [opt_bind rev app]. rewrite strip_prefix_app. reflexivity.
+    induction fs as [|f t IH]; [cbn [List.length]; lia|].
+    destruct t as [|g t].
+    - cbn [render_members List.length]. apply render_member_length.
+    - rewrite render_members_cons2. rewrite !app_length.
+      pose proof (render_member_length sty m f) as Hf.
+      change (List.length (f :: g :: t)) with (S (List.length (g :: t))). lia.
+  Qed.
+
+  Section OneManifest.
+    Variable sty : mstyle.
+    Variable m : manifest.
+    Hypothesis Hw : all_ws (ms_ws sty).
+    Hypothesis Hm : manifest_bytes_ok m.
+
+    (* a value never starts with whitespace *)
+    Lemma skip_ws_fvalue f rest : skip_ws (fvalue sty m f ++ rest) = fvalue sty m f ++ rest.
+    Proof.
+      destruct f; unfold fvalue; try rewrite json_string_sty_eq; cbn [app].
+      - apply skip_ws_cons. reflexivity.
+      - apply skip_ws_cons. destruct (m_kw m); reflexivity.
+      - apply skip_ws_cons. reflexivity.
+      - apply skip_ws_cons. destruct (m_cph m); reflexivity.
+      - apply skip_ws_cons. reflexivity.
+    Qed.
+
+    (* the value of member [f] sets exactly field [f] of the accumulator *)
+    Lemma parse_value_field f st rest :
+      parse_value C (fname f) st (fvalue sty m f ++ rest) = Some (pm_upd m st f, rest).
+    Proof.
+      destruct Hm as [Hwfk Hnp].
+      destruct f; unfold parse_value, fname, fvalue, pm_upd; eval_eqb; cbv iota.
+      - rewrite json_string_sty_eq. cbn [app]. rewrite N.eqb_refl. rewrite <- app_assoc.
+        rewrite json_unquote_esc_fun. reflexivity.
+      - cbn [app]. rewrite take_digit_kw. cbn [opt_bind]. rewrite kwalg_of_id_id. reflexivity.
+      - cbn [app]. rewrite N.eqb_refl. rewrite <- app_assoc.
+        rewrite (take_b64_b64e _ _ Hwfk). reflexivity.
+      - cbn [app]. rewrite take_digit_cph. cbn [opt_bind]. rewrite cipher_of_id_id. reflexivity.
+      - cbn [app]. rewrite N.eqb_refl. rewrite <- app_assoc.
+        rewrite (take_b64_b64e _ _ Hnp). reflexivity.
+    Qed.
+
+    (* one turn of the member loop *)
+    Lemma parse_members_step fuel st f d r4 :
+      is_ws d = false ->
+      parse_members C (Datatypes.S fuel) st
+        (ms_ws sty ++ render_member C sty m f ++ ms_ws sty ++ d :: r4)
+      = if (d =? 44)%N then parse_members C fuel (pm_upd m st f) r4
+        else if (d =? 125)%N then Some (pm_upd m st f, r4) else None.
+    Proof.
+      intros Hd. rewrite render_member_eq. cbn [parse_members].
+      rewrite (skip_ws_app _ _ Hw). rewrite <- !app_assoc. cbn [app].
+      rewrite (skip_ws_cons 34%N) by reflexivity. rewrite N.eqb_refl.
+      rewrite (json_unquote_plain_cons (fname f) _ [] (fname_plain f)).
+      cbn [opt_bind rev app].
+      rewrite (skip_ws_app _ _ Hw). rewrite (skip_ws_cons 58%N) by reflexivity.
+      rewrite N.eqb_refl.
+      rewrite (skip_ws_app _ _ Hw). rewrite skip_ws_fvalue.
+      rewrite parse_value_field. cbn [opt_bind].
+      rewrite (skip_ws_app _ _ Hw). rewrite (skip_ws_cons d) by exact Hd.
+      reflexivity.
+    Qed.
+
+    (* the member loop on a rendered member list *)
+    Lemma parse_members_render fs : forall fuel st tail,
+      fs <> [] -> List.length fs <= fuel ->
+      parse_members C fuel st
+        (ms_ws sty ++ render_members C sty m fs ++ ms_ws sty ++ 125%N :: tail)
+      = Some (fold_left (pm_upd m) fs st, tail).
+    Proof.
+      induction fs as [|f t IH]; intros fuel st tail Hne Hfuel; [congruence|].
+      destruct fuel as [|fuel]; [cbn [List.length] in Hfuel; lia|].
+      destruct t as [|g t].
+      - cbn [render_members fold_left].
+        rewrite parse_members_step by reflexivity. reflexivity.
+      - rewrite render_members_cons2. rewrite <- !app_assoc. cbn [app].
+        rewrite parse_members_step by reflexivity.
+        change (44 =? 44)%N with true. cbv iota.
+        change (fold_left (pm_upd m) (f :: g :: t) st)
+          with (fold_left (pm_upd m) (g :: t) (pm_upd m st f)).
+        apply IH; [discriminate|].
+        cbn [List.length] in Hfuel |- *. lia.
+    Qed.
+
+    (* the accumulator after all the members *)
+    Lemma fold_upd_kw fs st :
+      In FKw fs -> pm_kw (fold_left (pm_upd m) fs st) = Some (m_kw m).
+    Proof.
+      apply (fold_upd_inv m (fun st => pm_kw st = Some (m_kw m)) FKw).
+      - intros st' f Hst. destruct f; cbn [pm_upd pm_kw]; try exact Hst; reflexivity.
+      - intros st'. reflexivity.
+    Qed.
+
+    Lemma fold_upd_wfk fs st :
+      In FWfk fs -> pm_wfk (fold_left (pm_upd m) fs st) = Some (m_wfk m).
+    Proof.
+      apply (fold_upd_inv m (fun st => pm_wfk st = Some (m_wfk m)) FWfk).
+      - intros st' f Hst. destruct f; cbn [pm_upd pm_wfk]; try exact Hst; reflexivity.
+      - intros st'. reflexivity.
+    Qed.
+
+    Lemma fold_upd_cph fs st :
+      In FCph fs -> pm_cph (fold_left (pm_upd m) fs st) = Some (m_cph m).
+    Proof.
+      apply (fold_upd_inv m (fun st => pm_cph st = Some (m_cph m)) FCph).
+      - intros st' f Hst. destruct f; cbn [pm_upd pm_cph]; try exact Hst; reflexivity.
+      - intros st'. reflexivity.
+    Qed.
+
+    Lemma fold_upd_np fs st :
+      In FNp fs -> pm_np (fold_left (pm_upd m) fs st) = Some (m_np m).
+    Proof.
+      apply (fold_upd_inv m (fun st => pm_np st = Some (m_np m)) FNp).
+      - intros st' f Hst. destruct f; cbn [pm_upd pm_np]; try exact Hst; reflexivity.
+      - intros st'. reflexivity.
+    Qed.
+
+    Lemma fold_upd_k fs :
+      In FK fs \/ m_k m = [] -> pm_k (fold_left (pm_upd m) fs pman0) = m_k m.
+    Proof.
+      assert (Hstab : forall st f, pm_k st = m_k m -> pm_k (pm_upd m st f) = m_k m).
+      { intros st' f Hst. destruct f; cbn [pm_upd pm_k]; try exact Hst; reflexivity. }
+      intros [Hin|Hnil].
+      - apply (fold_upd_inv m (fun st => pm_k st = m_k m) FK); [exact Hstab| |exact Hin].
+        intros st'. reflexivity.
+      - apply (fold_upd_stable m (fun st => pm_k st = m_k m)); [exact Hstab|].
+        rewrite Hnil. reflexivity.
+    Qed.
+
+    (* B6 in general: any member order (members may even be repeated), insignificant
+       whitespace, any of the three escape styles *)
+    Theorem parse_manifest_text_gen :
+      (forall f, f <> FK -> In f (ms_order sty)) ->
+      (In FK (ms_order sty) \/ m_k m = []) ->
+      parse_manifest C (manifest_text C sty m) = Some m.
+    Proof.
+      intros Hall Hk. unfold parse_manifest, manifest_text.
+      change (str "{") with [123%N]. change (str "}") with [125%N]. cbn [app].
+      rewrite (skip_ws_app _ _ Hw). rewrite (skip_ws_cons 123%N) by reflexivity.
+      rewrite N.eqb_refl.
+      assert (Hne : ms_order sty <> []).
+      { intros Hnil. specialize (Hall FKw). rewrite Hnil in Hall. apply Hall. discriminate. }
+      rewrite parse_members_render; [|exact Hne|].
+      2:{ rewrite !app_length. pose proof (render_members_length sty m (ms_order sty)). lia. }
+      cbn [opt_bind]. rewrite (skip_ws_all _ Hw). cbn [is_nil].
+      rewrite fold_upd_kw by (apply Hall; discriminate).
+      rewrite fold_upd_wfk by (apply Hall; discriminate).
+      rewrite fold_upd_cph by (apply Hall; discriminate).
+      rewrite fold_upd_np by (apply Hall; discriminate).
+      rewrite (fold_upd_k _ Hk). destruct m; reflexivity.
+    Qed.
+
+    (* B5 for the alternative serialisations *)
+    Lemma render_member_no_nl f : no_nl (render_member C sty m f).
+    Proof.
+      pose proof (all_ws_no_nl _ Hw) as Hwn.
+      rewrite render_member_eq.
+      repeat apply no_nl_app; try exact Hwn; try solve [repeat constructor; discriminate].
+      - apply no_nl_plain, fname_plain.
+      - destruct f; unfold fvalue.
+        + apply json_string_sty_no_nl.
+        + unfold digit_char; constructor; [lia|constructor].
+        + repeat apply no_nl_app; try apply b64e_no_nl; repeat constructor; discriminate.
+        + unfold digit_char; constructor; [lia|constructor].
+        + repeat apply no_nl_app; try apply b64e_no_nl; repeat constructor; discriminate.
+    Qed.
+
+    Lemma render_members_no_nl fs : no_nl (render_members C sty m fs).
+    Proof.
+      pose proof (all_ws_no_nl _ Hw) as Hwn.
+      induction fs as [|f t IH]; [constructor|].
+      destruct t as [|g t]; [apply render_member_no_nl|].
+      rewrite render_members_cons2.
+      repeat apply no_nl_app; try exact Hwn; try exact IH; try apply render_member_no_nl.
+      repeat constructor; discriminate.
+    Qed.
+
+    Lemma manifest_text_no_nl_h : no_nl (manifest_text C sty m).
+    Proof.
+      pose proof (all_ws_no_nl _ Hw) as Hwn.
+      unfold manifest_text.
+      repeat apply no_nl_app; try exact Hwn; try apply render_members_no_nl;
+        no_nl_lit.
+    Qed.
+  End OneManifest.
+
+  (* the statements with the hypotheses in the order they are used downstream *)
+  Theorem parse_manifest_text sty m :
+    manifest_bytes_ok m ->
+    Forall (fun b => is_ws b = true) (ms_ws sty) ->
+    NoDup (ms_order sty) ->
+    (forall f, f <> FK -> In f (ms_order sty)) ->
+    (In FK (ms_order sty) \/ m_k m = []) ->
+    parse_manifest C (manifest_text C sty m) = Some m.
+  Proof.
+    intros Hm Hw _ Hall Hk. exact (parse_manifest_text_gen sty m Hw Hm Hall Hk).
+  Qed.
+
+  Lemma manifest_text_no_nl sty m :
+    Forall (fun b => is_ws b = true) (ms_ws sty) -> no_nl (manifest_text C sty m).
+  Proof. intros Hw. exact (manifest_text_no_nl_h sty m Hw). Qed.
+
+  Lemma manifest_text_nonempty sty m : manifest_text C sty m <> [].
+  Proof.
+    unfold manifest_text. change (str "{") with [123%N].
+    intros H. apply app_eq_nil in H as [_ H]. discriminate H.
+  Qed.
+
+  (* Go's own text is one member of the family *)
+  Lemma manifest_text_go m :
+    manifest_text C (mkMstyle (go_order (is_nil (m_k m))) [] 0) m = manifest_json C m.
+  Proof.
+    unfold manifest_text, manifest_json, go_order.
+    destruct (is_nil (m_k m)); cbn [ms_ws ms_order render_members render_member ms_esc];
+      unfold json_string_sty, json_string; eval_str; cbn [app];
+      repeat (rewrite <- !app_assoc; cbn [app]); reflexivity.
   Qed.
 
   Lemma parse_manifest_json m :
     manifest_bytes_ok m -> parse_manifest C (manifest_json C m) = Some m.
   Proof.
-    intros [Hwfk Hnp]. unfold parse_manifest, manifest_json.
-    rewrite strip_prefix_app. cbn [opt_bind].
-    rewrite parse_k_member. cbn [opt_bind].
-    rewrite strip_prefix_app. cbn [opt_bind app].
-    rewrite take_digit_kw. cbn [opt_bind].
-    rewrite kwalg_of_id_id. cbn [opt_bind].
-    rewrite strip_prefix_app. cbn [opt_bind].
-    change (str """,""cph"":") with ([34%N] ++ str ",""cph"":").
-    rewrite <- (app_assoc [34%N] (str ",""cph"":")).
-    rewrite (take_b64_b64e _ _ Hwfk). cbn [opt_bind].
-    rewrite strip_prefix_app. cbn [opt_bind app].
-    rewrite take_digit_cph. cbn [opt_bind].
-    rewrite cipher_of_id_id. cbn [opt_bind].
-    rewrite strip_prefix_app. cbn [opt_bind].
-    change (str """}") with ([34%N] ++ str "}").
-    rewrite (take_b64_b64e _ _ Hnp). cbn [opt_bind].
-    replace (str "}") with (str "}" ++ []) by apply app_nil_r.
-    rewrite strip_prefix_app. cbn [opt_bind is_nil].
-    destruct m; reflexivity.
+    intros Hm. rewrite <- manifest_text_go. apply parse_manifest_text_gen.
+    - constructor.
+    - exact Hm.
+    - cbn [ms_order]. intros f Hf.
+      destruct (is_nil (m_k m)); destruct f; cbn [go_order In]; try congruence; auto 10.
+    - cbn [ms_order]. destruct (m_k m) as [|k0 kt]; cbn [is_nil go_order In]; auto.
   Qed.
 End ManifestProofs.
 
@@ -256,6 +662,36 @@ Example parse_manifest_json_ex :
   manifest_json C m1 = str "{""kw"":1,""wfk"":""BA"",""cph"":2,""np"":""ABABABB""}" /\
   manifest_json C m2 = str "{""k"":""\""\nk"",""kw"":5,""wfk"":""B"",""cph"":1,""np"":""A""}".
 Proof. vm_compute. repeat split. Qed.
+
+(* non-vacuity of [parse_manifest_text]: its hypotheses on the style hold for a style with
+   another member order, whitespace everywhere and the "\/" escapes; the text is not Go's; on
+   a toy "base64" that can be inverted on the bytes used here the parser does read it back
+   (also with "k" left out, and with a member given twice) *)
+Example parse_manifest_text_ex :
+  let C := mkCrypto (fun _ _ _ p => p) (fun _ _ _ c => Some c) (fun _ _ _ _ => [])
+                    (fun _ _ => [65%N]) (fun b => map (fun x => (65 + x mod 2)%N) b)
+                    (fun s => Some (map (fun c => (c - 65)%N) s)) in
+  let sty := mkMstyle [FNp; FCph; FK; FWfk; FKw] [32; 9; 13]%N 1 in
+  let sty2 := mkMstyle [FWfk; FKw; FNp; FCph] [] 2 in
+  let sty3 := mkMstyle [FKw; FK; FWfk; FCph; FNp; FKw] [32%N] 2 in
+  let m := mkManifest [97; 47; 34]%N RSAOAEP256 [1; 0]%N ChaChaPoly [0; 1; 0; 1; 0; 1; 1]%N in
+  let m2 := mkManifest [] A256KW [1]%N AESGCM [0]%N in
+  manifest_bytes_ok m /\ manifest_bytes_ok m2 /\
+  Forall (fun b => is_ws b = true) (ms_ws sty) /\
+  (forall f, f <> FK -> In f (ms_order sty)) /\ (forall f, f <> FK -> In f (ms_order sty2)) /\
+  In FK (ms_order sty) /\ m_k m2 = [] /\
+  manifest_text C sty2 m2 = str "{""wfk"":""B"",""kw"":1,""np"":""A"",""cph"":1}" /\
+  manifest_text C sty m <> manifest_json C m /\
+  parse_manifest C (manifest_text C sty m) = Some m /\
+  parse_manifest C (manifest_text C sty2 m2) = Some m2 /\
+  parse_manifest C (manifest_text C sty3 m) = Some m.
+Proof.
+  cbv zeta. repeat split; try (vm_compute; reflexivity); try (vm_compute; discriminate).
+  - repeat constructor.
+  - intros f Hf. destruct f; cbn [ms_order In]; try congruence; auto 10.
+  - intros f Hf. destruct f; cbn [ms_order In]; try congruence; auto 10.
+  - cbn [ms_order In]. auto.
+Qed.
 
 (* ------------------------------------------------------------------------------------- *)
 (* C8/C9: option tables                                                                    *)
